@@ -358,6 +358,10 @@ func keys(m map[uint16]bool) []uint16 {
 }
 
 func main() {
+	if _, ok := vk.InChild(); ok {
+		e2eChild()
+		return
+	}
 	run := vk.Start("C03")
 	if rep, ok := vk.ReplayInput(); ok {
 		m, _ := rep["replay"].(map[string]any)
@@ -393,6 +397,7 @@ func main() {
 		}()
 	}
 	wg.Wait()
+	e2eTier(run)
 	run.FloorCounter("pure_reverse_confirmed", 10000)
 	run.FloorCounter("nacks_answered_identically", 2000)
 	run.FloorCounter("nacks_refused_for_unsent_numbers", 500)
